@@ -378,8 +378,12 @@ func c06VersUnit(lvl int) core.Unit {
 			check("vers:"+s, "1.0.0")
 			check("vers:npm"+s, "1.0.0")
 		}
-		for _, sp := range c06Specials {
-			for _, base := range []string{"vers:npm/>=1.0.0|<2.0.0", "vers:deb/<1.0~rc1"} {
+		versBases := []string{"vers:npm/>=1.0.0|<2.0.0", "vers:deb/<1.0~rc1", "vers:npm/*", "vers:npm/", "vers:", "VERS:NPM/>=1.0.0"}
+		for _, sch := range schemes {
+			versBases = append(versBases, "vers:"+sch+"/>=1.0|<2.0")
+		}
+		for _, sp := range append(append([]string{}, c06Specials...), c06CaseSpecials...) {
+			for _, base := range gen.Uniq(versBases) {
 				for i := 0; i <= len(base); i++ {
 					check(base[:i]+sp+base[i:], "1.0.0")
 					check(base, "1.0"+sp+".0")
@@ -604,7 +608,7 @@ func init() {
 				"statement_counter":             steps.Available,
 			}
 		},
-		Rule:        "for all 20 ecosystems, NewVersion and NewVersionRange are run on EVERY string of length <= 3 (quick) / 4 (thorough) over the 24-character syntax alphabet [0 1 a x . - ~ ^ * , | = < > ! [ ( ] ) SP _ : + v], on the grammar-shaped candidates of the other checks, on every comparator and shorthand operator (^ ~ ~> ~= = == != .* .x brackets, hyphen) applied to every accepted universe version and probed also with that version, on every operator applied to every dotted shape of 1-6 components over {1,0,10,x,*,empty}, and on every accepted string of length <= 3 with each of 10 byte-level specials (NUL, 0x7f, 0x80, 0xff, e-acute, an Arabic-Indic digit, NBSP, TAB, LF, CR) inserted before / substituted at every position; 11 byte sequences whose length changes under case folding or UTF-8 repair (0xff, 0xff 0xff, U+023A, U+0130, U+212A, U+1E9E, sharp s, dotless i, truncated multi-byte prefixes) before / inside / after EVERY string of length <= 2 over the alphabet (accepted or not) and at every position of a 120-member stride sample of the universe, as version and as range; vers.Contains on 'vers:<scheme>/' + every string <= L over a 16-character alphabet for 11 schemes + 2 invalid ones, as range and as probe, plus raw strings and specials, plus 6 multi-interval forms whose later bounds come from a list of 31 range-unsafe tokens ('3,0', '[3', '3 - 4', ...) probed inside the earlier interval, plus every comparator sequence of length 1..5 over {>= < = != > <=} (valid and invalid alternations) on increasing versions for 6 schemes; CLI vectors (all argv of length <= 3 over 16 strings, and 5 command heads x all tails of length <= 3 over 5 strings, several invalid arguments at once); 25 growth families (digit runs, separator runs, operator runs, brackets, || and comma repetition ...) at n = 1k..4k (thorough ..16k, digit runs 96k) for every parser. Oracle: no panic; exactly one of value/error; follow-up Compare/String/Contains (twice on the same range object) do not panic; error => false for vers; every call stays within 50*n^2+1e6 injected-statement steps (an exceeded budget aborts the call deterministically - this is how hangs are detected) and steps(2n)/steps(n) <= 4.6 for every family. distinct_nontrivial = accepted inputs (those that exercise the follow-up operations).",
+		Rule:        "for all 20 ecosystems, NewVersion and NewVersionRange are run on EVERY string of length <= 3 (quick) / 4 (thorough) over the 24-character syntax alphabet [0 1 a x . - ~ ^ * , | = < > ! [ ( ] ) SP _ : + v], on the grammar-shaped candidates of the other checks, on every comparator and shorthand operator (^ ~ ~> ~= = == != .* .x brackets, hyphen) applied to every accepted universe version and probed also with that version, on every operator applied to every dotted shape of 1-6 components over {1,0,10,x,*,empty}, and on every accepted string of length <= 3 with each of 10 byte-level specials (NUL, 0x7f, 0x80, 0xff, e-acute, an Arabic-Indic digit, NBSP, TAB, LF, CR) inserted before / substituted at every position; 11 byte sequences whose length changes under case folding or UTF-8 repair (0xff, 0xff 0xff, U+023A, U+0130, U+212A, U+1E9E, sharp s, dotless i, truncated multi-byte prefixes) before / inside / after EVERY string of length <= 2 over the alphabet (accepted or not) and at every position of a 120-member stride sample of the universe, as version and as range; vers.Contains on 'vers:<scheme>/' + every string <= L over a 16-character alphabet for 11 schemes + 2 invalid ones, as range and as probe, plus raw strings and the byte-level and length-changing specials at every position of one two-interval range per scheme and of short / upper-case vers strings, plus 6 multi-interval forms whose later bounds come from a list of 31 range-unsafe tokens ('3,0', '[3', '3 - 4', ...) probed inside the earlier interval, plus every comparator sequence of length 1..5 over {>= < = != > <=} (valid and invalid alternations) on increasing versions for 6 schemes; CLI vectors (all argv of length <= 3 over 16 strings, and 5 command heads x all tails of length <= 3 over 5 strings, several invalid arguments at once); 25 growth families (digit runs, separator runs, operator runs, brackets, || and comma repetition ...) at n = 1k..4k (thorough ..16k, digit runs 96k) for every parser. Oracle: no panic; exactly one of value/error; follow-up Compare/String/Contains (twice on the same range object) do not panic; error => false for vers; every call stays within 50*n^2+1e6 injected-statement steps (an exceeded budget aborts the call deterministically - this is how hangs are detected) and steps(2n)/steps(n) <= 4.6 for every family. distinct_nontrivial = accepted inputs (those that exercise the follow-up operations).",
 		Assumptions: []string{"statements are counted by overlay-injected counters in the repository's own sources; standard-library loops (regexp, strings, strconv) are not counted and are trusted to be at most quadratic", "the quantifier's coverage-guided fuzzing is not used (sampling); strings over characters outside the alphabet and specials are not explored"},
 	})
 }
